@@ -25,9 +25,9 @@ package main
 
 import (
 	"fmt"
-	"os"
 	"go/ast"
 	"go/token"
+	"os"
 	"sort"
 	"strings"
 )
